@@ -304,7 +304,14 @@ func (S *Scanner) scanChar(pos token.Position) {
 
 func (S *Scanner) scanIdentifier(pos token.Position) token.Type {
 	ch0 := S.ch
-	for isLetter(S.ch) || isDigit(S.ch) || S.ch == '!' {
+	if ch0 == '!' {
+		// an ignored token id is '!' followed by a token id
+		S.next()
+		if !isLetter(S.ch) {
+			S.error(pos, "'!' must be followed by a token id")
+		}
+	}
+	for isLetter(S.ch) || isDigit(S.ch) {
 		S.next()
 	}
 	switch {
